@@ -11,6 +11,8 @@ using namespace vf;
 
 static Fields gen(Tape &t) {
   Fields f;
+  LongMode lm(t);
+  if (lm.on()) f.seti("long", 1);
   GenUri b = g_base(t, /*forceScheme=*/true, SEG_NOPCTDOT);
   int kind = 0;
   GenUri r = g_ref(t, b, &kind, SEG_NOPCTDOT);
